@@ -104,6 +104,25 @@ def run(ctx):
     oki = tab == {("plus", "-"), ("minus", "+")}
     ctx.ob("C02.OFFSET", pp, "'GMT+3' means three hours behind: the sign token after a zone name is inverted ('+' -> '-', '-' -> '+')", oki, construct="sign inversion after a zone name",
            detail="" if oki else str(sorted(tab)), analysis="must-hold branch facts at the in-place sign rewrite")
+    # the whole 'GMT+3' step: invert the sign token, forget the name's own offset, and drop the name when it is a UTC alias
+    def rewrites_sign(st_):
+        """the statement (an assignment, or the if statement the canonical view makes of it) stores '+' / '-' into a token"""
+        for y in ast.walk(st_):
+            if isinstance(y, ast.Assign) and isinstance(y.targets[0], ast.Subscript) and any(
+                    isinstance(c_, ast.Constant) and c_.value in ("+", "-") for c_ in ast.walk(y.value)):
+                return True
+        return False
+    gm = [n for n in walk_local(pp.node) if isinstance(n, ast.If) and "in ('+', '-')" in src(n.test) and any(rewrites_sign(x) for x in n.body)]
+    if len(gm) != 1:
+        raise AnalysisError("C02.OFFSET", pp.qualname, "sign inversion step after a zone name not found (%d candidates)" % len(gm))
+    from .. import summ
+    summ.check_ref(ctx, "C02.OFFSET", gm[0].body, "after a zone name followed by a sign: the sign token is inverted, the name's own offset is cleared so that the "
+                   "numeric one applies, and the name is dropped exactly when it is a UTC alias (GMT+3 is not GMT)", """
+        l[i + 1] = ('+', '-')[l[i + 1] == '+']
+        res.tzoffset = None
+        if info.utczone(res.tzname):
+            res.tzname = None
+        """, construct="zone name followed by a sign", where=pp, outcome=summ.outcome_with(stores=lambda t: True, result=False))
     clr = [n for n in cfg.live_nodes() if n.kind == "stmt" and src(n.ast) == "res.tzoffset = None"]
     ctx.ob("C02.OFFSET", pp, "... and the name's own offset is cleared so the numeric one applies", len(clr) == 1 and bool(inv) and cfg.path_avoiding(inv[0], clr, avoid_nodes=[]) is not None,
            construct="res.tzoffset = None after inversion")
